@@ -976,4 +976,6 @@ def run(P, R, tier):
     from ..report import Remap as _Remap
     from . import c17 as _c17
     _c17.wiring(P, _Remap(R, {'C17.WIRE.1': 'C14.WIRE.2'}, keys=('sigusr1',)))
+    # error messages of any length (a long path, a long value) are formatted from an intact argument list
+    rules.va_list_once(P, R, 'C14.MPT.6')
     return EXPLANATION, ASSUMPTIONS
